@@ -12,6 +12,9 @@
 package main
 
 import (
+	"time"
+	"runtime"
+	"strconv"
 	"encoding/json"
 	"flag"
 	"fmt"
@@ -124,6 +127,27 @@ func main() {
 	os.Setenv("GOTOOLCHAIN", "local")
 	os.Setenv("GOFLAGS", "-mod=mod")
 	os.Setenv("GOPROXY", "off")
+	// memory budget: a change to the tree can make an exploration blow up (a rewritten tokeniser
+	// that forks per byte, say); exhausting the budget is inconclusive, never a verdict
+	go func() {
+		limit := uint64(16) << 30
+		if g, err := strconv.Atoi(os.Getenv("VERIF_MEM_GB")); err == nil && g > 0 {
+			limit = uint64(g) << 30
+		}
+		for {
+			time.Sleep(3 * time.Second)
+			var ms runtime.MemStats
+			runtime.ReadMemStats(&ms)
+			if ms.Sys > limit {
+				id := "?"
+				if len(os.Args) > 1 {
+					id = os.Args[1]
+				}
+				fmt.Printf("INCONCLUSIVE property=%s memory budget exhausted (%d GB): the exploration does not fit; not a verdict\n", id, limit>>30)
+				os.Exit(2)
+			}
+		}
+	}()
 	if mp := os.Getenv("VERIF_MEMPROFILE"); mp != "" {
 		go func() {
 			for k := 0; ; k++ {
